@@ -90,6 +90,79 @@ func c16Run(fs *Facts) {
 	} else {
 		fs.Tri("recreateDropsDeleteMarker", Unknown, swampPath)
 	}
+	// ceasesVigilOnce: a swamp method that gives the caller's vigil up for a drain (s.CeaseVigil()) takes it again
+	// (s.BeginVigil()) afterwards in the same block, so that the handler's deferred CeaseVigil stays the only net cease
+	if sw != nil {
+		res, where := Yes, swampPath
+		for _, d := range sw.AST.Decls {
+			fd, ok := d.(*ast.FuncDecl)
+			if !ok || fd.Body == nil || fd.Recv == nil {
+				continue
+			}
+			ast.Inspect(fd.Body, func(x ast.Node) bool {
+				blk, ok := x.(*ast.BlockStmt)
+				if !ok {
+					return true
+				}
+				open := 0
+				for _, st := range blk.List {
+					es, ok := st.(*ast.ExprStmt)
+					if !ok {
+						continue
+					}
+					switch sw.Str(es.X) {
+					case "s.CeaseVigil()":
+						open++
+						where = swampPath + ":" + itoa(sw.Line(es)) + " (" + fd.Name.Name + ")"
+					case "s.BeginVigil()":
+						if open > 0 {
+							open--
+						}
+					}
+				}
+				if open > 0 {
+					res = No
+				}
+				return true
+			})
+			if res == No {
+				break
+			}
+		}
+		fs.Tri("ceasesVigilOnce", res, where)
+	} else {
+		fs.Tri("ceasesVigilOnce", Unknown, swampPath)
+	}
+	// deleteRefusesClosedInstance: DeleteTreasure returns an error when the instance's routines have been cancelled
+	// (closed / destroyed), and the gateway's Delete goes on with the instance that is mapped then
+	if sw != nil {
+		res, where := Unknown, swampPath
+		if dt := sw.Func("swamp", "DeleteTreasure"); dt != nil {
+			where = swampPath + ":" + itoa(sw.Line(dt))
+			res = No
+			ast.Inspect(dt, func(x ast.Node) bool {
+				if ifs, ok := x.(*ast.IfStmt); ok && strings.Contains(sw.Str(ifs.Cond), "goRoutineContext.Err()") {
+					if n := len(ifs.Body.List); n > 0 {
+						if _, isRet := ifs.Body.List[n-1].(*ast.ReturnStmt); isRet {
+							res = Yes
+						}
+					}
+				}
+				return true
+			})
+			if res == Yes {
+				if gw, err := Load("app/server/gateway/gateway.go"); err != nil {
+					res = Unknown
+				} else if del := gw.Func("Gateway", "Delete"); del == nil || !strings.Contains(gw.Str(del), "ErrorSwampIsClosed") || len(gw.CallsSuffix(del, ".SummonSwamp")) < 2 {
+					res = No
+					where = "app/server/gateway/gateway.go"
+				}
+			}
+		}
+		fs.Tri("deleteRefusesClosedInstance", res, where)
+	} else {
+		fs.Tri("deleteRefusesClosedInstance", Unknown, swampPath)
+	}
 	hy, err := Load(hydraPath)
 	if err != nil {
 		fs.Err("%v", err)
@@ -131,6 +204,15 @@ func c16Run(fs *Facts) {
 				loop = fl
 			}
 		}
+		// the count of mapped swamps: CountActiveSwamps() itself or any variable it is assigned to
+		countVars := map[string]bool{"h.CountActiveSwamps()": true}
+		unsure := false
+		ast.Inspect(gs, func(x ast.Node) bool {
+			if as, ok := x.(*ast.AssignStmt); ok && len(as.Lhs) == 1 && len(as.Rhs) == 1 && strings.HasSuffix(hy.Str(as.Rhs[0]), ".CountActiveSwamps()") {
+				countVars[hy.Str(as.Lhs[0])] = true
+			}
+			return true
+		})
 		if loop != nil && loop.Cond == nil {
 			res = Yes
 			var visit func(n ast.Node, guarded bool)
@@ -139,8 +221,19 @@ func c16Run(fs *Facts) {
 				case *ast.FuncLit:
 					return
 				case *ast.IfStmt:
-					cond := hy.Str(x.Cond)
-					g := guarded || (strings.Contains(cond, "== 0") && (strings.Contains(cond, "openedSwamps") || strings.Contains(cond, "CountActiveSwamps")))
+					cond := strings.ReplaceAll(hy.Str(x.Cond), " ", "")
+					zero := false
+					for v := range countVars {
+						for _, pat := range []string{v + "==0", v + "<1", v + "<=0", "0==" + v, "1>" + v, "0>=" + v} {
+							if strings.Contains(cond, pat) {
+								zero = true
+							}
+						}
+						if !zero && strings.Contains(cond, v) {
+							unsure = true // compares the count in a way this extractor does not know
+						}
+					}
+					g := guarded || zero
 					forced := false
 					for _, st := range x.Body.List {
 						if es, ok := st.(*ast.ExprStmt); ok && strings.Contains(hy.Str(es.X), "time.Sleep(30") {
@@ -173,6 +266,9 @@ func c16Run(fs *Facts) {
 				}
 			}
 			visit(loop.Body, false)
+			if res == No && unsure {
+				res = Unknown
+			}
 		}
 		fs.Tri("stopWaitsUntilClosed", res, where)
 	}
@@ -221,6 +317,24 @@ func c16DestroyFact(sw *File, swampPath string) (string, Tri, string) {
 		}
 		return true
 	})
+	if check != nil {
+		// the re-check must depend on nothing but the count (and the only-if-empty parameter): every conjunct is either an
+		// identifier or a "count is positive" test; anything else makes the re-check conditional on something unknown
+		for _, cj := range strings.Split(strings.ReplaceAll(sw.Str(check.Cond), " ", ""), "&&") {
+			isIdent := cj != "" && !strings.ContainsAny(cj, "()<>=!|.")
+			isCount := false
+			for _, c := range []string{"s.beaconKey.Count()", "s.CountTreasures()"} {
+				for _, t := range []string{c + ">0", c + "!=0", c + ">=1", "0<" + c} {
+					if cj == t {
+						isCount = true
+					}
+				}
+			}
+			if !isIdent && !isCount {
+				return name, Unknown, swampPath + ":" + itoa(sw.Line(check)) + " (re-check under an extra condition: " + cj + ")"
+			}
+		}
+	}
 	if check == nil {
 		return name, No, swampPath + ":" + itoa(sw.Line(waits[0]))
 	}
@@ -249,7 +363,8 @@ func c16DestroyFact(sw *File, swampPath string) (string, Tri, string) {
 			continue
 		}
 		for _, c := range sw.Calls(fd, "s.destroy") {
-			if len(c.Args) == 1 && sw.Str(c.Args[0]) == "true" && len(fd.Body.List) == 1 {
+			// the entry that asks for the re-check: its only call of destroy is destroy(true) (logging around it is fine)
+			if len(c.Args) == 1 && sw.Str(c.Args[0]) == "true" && len(sw.Calls(fd, "s.destroy")) == 1 {
 				entry = fd.Name.Name
 			}
 		}
